@@ -217,6 +217,10 @@ func (o *objectGoSlice) defineOwnPropertyIdx(idx valueInt, descr PropertyDescrip
 		}
 		val := descr.Value
 		if val == nil {
+			if i < len(*o.data) {
+				// nothing to change: the attributes have been checked and there is no new value
+				return true
+			}
 			val = _undefined
 		}
 		o.putIdx(i, val, throw)
@@ -233,6 +237,9 @@ func (o *objectGoSlice) defineOwnPropertyStr(name unistring.String, descr Proper
 		}
 		val := descr.Value
 		if val == nil {
+			if idx < len(*o.data) {
+				return true
+			}
 			val = _undefined
 		}
 		o.putIdx(idx, val, throw)
